@@ -861,13 +861,16 @@ func init() {
 	drivers["seltext"] = func(seed int64, n int, emit func(any)) error {
 		rng := rand.New(rand.NewSource(seed))
 		atoms := []string{".", ".", "[", "]", "\"", "?", ":", "\\", "a", "b_", "é", "0", "12", "-", "$", " ", "[]", "[0]", `["a"]`, "[1:]", "[0:2]", "[:-1]", "[2:]", "[-3:3]", "[1:4]", ".foo", "..", `\"`,
-			"[1:2:3]", "[:1:2]", "[1::3]", "[-1:-]", "[1:2", "1:2]", `["a":1]`, `[1:"a"]`, "[0:2:x]"}
+			"[1:2:3]", "[:1:2]", "[1::3]", "[-1:-]", "[1:2", "1:2]", `["a":1]`, `[1:"a"]`, "[0:2:x]",
+			// indexes and bounds far from zero, inside the safe integers: the index that was written is the index that is read
+			"[4294967297]", "[2147483648]", "[-4294967295]", "[-2147483649]", "[9007199254740991]", "[-9007199254740991]", "[4294967296:]", "[:-4294967297]", "[65536]", "[-32769]",
+			"\xe9", "\xff"}
 		for it := 0; it < n; it++ {
 			text := "."
 			if rng.Intn(20) == 0 {
 				text = ""
 			}
-			inner := []string{"a", "b", "?", "??", "???", ".", "[", "]", ":", "-", "0", " ", "é", "*", "\\", `\"`, "$", "[]", "[0]", "..", ".a?"}
+			inner := []string{"a", "b", "?", "??", "???", ".", "[", "]", ":", "-", "0", " ", "é", "*", "\\", `\"`, "$", "[]", "[0]", "..", ".a?", "\xe9", "\xe8", "caf\xe9", "\xff\xfe"}
 			for k := rng.Intn(7); k > 0; k-- {
 				if rng.Intn(5) == 0 {
 					// a quoted key with arbitrary content: everything between the quotes is the field name
@@ -893,6 +896,10 @@ func init() {
 				again, err2 := parseReal(sel.String())
 				same = err2 == nil && sameViews(viewOf(sel), viewOf(again), true)
 				if ok, _, _ := meaningCoversText(viewOf(sel)); !ok {
+					same = false
+				}
+				// byte for byte (the trace compares code points: a byte that is not UTF-8 and U+FFFD look alike there)
+				if !consumesAll(viewOf(sel), text) {
 					same = false
 				}
 			}
